@@ -59,9 +59,8 @@ class Job(BaseJob[Callable[..., Coroutine[Any, Any, None]]]):
     # pylint: disable=no-member invalid-name
 
     async def _exec(self, logger: Logger) -> None:
-        coroutine = self._BaseJob__handle(*self._BaseJob__args, **self._BaseJob__kwargs)  # type: ignore
         try:
-            await coroutine
+            await self._BaseJob__handle(*self._BaseJob__args, **self._BaseJob__kwargs)  # type: ignore
         except Exception:
             logger.exception("Unhandled exception in `%r`!", self)
             self._BaseJob__failed_attempts += 1  # type: ignore
